@@ -196,3 +196,264 @@ def rt_gomaxprocs(ex, g, fid, args):
 @exact("runtime.Gosched")
 def rt_gosched(ex, g, fid, args):
     return None
+
+
+# ------------------------------------------------------------------ p2pke leaves: noise, protobuf, x509, hashes
+# (trusted models, DESIGN.md 3.4). Results are "havoc": fresh symbols constrained only by the contract.
+def hbytes(ex, n, kind="x"):
+    arr = [ex.havoc(8, kind) for _ in range(n)]
+    return Slice(arr, 0, n, n)
+
+
+def fork_bool(ex):
+    return ex.choose([True, True]) == 0
+
+
+def hs_state(ex, p):
+    key = (id(p.cont), p.idx)
+    st = ex.hs.get(key)
+    if st is None:
+        st = {"n": 0, "cb": {}, "keep": p, "id": len(ex.hs) + 1}
+        ex.hs[key] = st
+    return st
+
+
+def new_cs(ex, fn_fid, idx, tag):
+    rt = ex.types[ex.funcs[fn_fid]["sig"]]["results"]
+    et = ex.types[rt[idx]]["elem"]
+    p = Ptr([ex.zero(et)], 0)
+    ex.cs_tags[id(p.cont)] = (tag, p)
+    return p
+
+
+@exact("github.com/flynn/noise.NewHandshakeState")
+def noise_new(ex, g, fid, args):
+    rt = ex.types[ex.funcs[fid]["sig"]]["results"]
+    et = ex.types[rt[0]]["elem"]
+    p = Ptr([ex.zero(et)], 0)
+    hs_state(ex, p)
+    return Tup([p, None])
+
+
+@exact("(*github.com/flynn/noise.HandshakeState).ChannelBinding")
+def noise_cb(ex, g, fid, args):
+    st = hs_state(ex, args[0])
+    n = st["n"]
+    if n not in st["cb"]:
+        st["cb"][n] = [ex.havoc(8, "cb") for _ in range(2)] + [n, st["id"]]
+    arr = list(st["cb"][n])
+    return Slice(arr, 0, len(arr), len(arr))
+
+
+@exact("(*github.com/flynn/noise.HandshakeState).ReadMessage")
+def noise_read(ex, g, fid, args):
+    st = hs_state(ex, args[0])
+    out = args[1]
+    if not fork_bool(ex):
+        return Tup([Slice(None, 0, 0, 0), None, None, mkerr(ex, gostr("noise: read failed"))])
+    st["n"] += 1
+    maxp = ex.opts.get("noise_payload_max", 3)
+    n = ex.choose([True] * (maxp + 1))
+    from .builtins_ import go_append
+    payload = go_append(ex, out if out.arr is not None else Slice([], 0, 0, 0), [ex.havoc(8, "np") for _ in range(n)])
+    cs1 = cs2 = None
+    if st["n"] == 2:
+        cs1 = new_cs(ex, fid, 1, st["id"] * 10 + 1)
+        cs2 = new_cs(ex, fid, 2, st["id"] * 10 + 2)
+    return Tup([payload, cs1, cs2, None])
+
+
+@exact("(*github.com/flynn/noise.HandshakeState).WriteMessage")
+def noise_write(ex, g, fid, args):
+    st = hs_state(ex, args[0])
+    out = args[1]
+    st["n"] += 1
+    from .builtins_ import go_append
+    msg = go_append(ex, out if out.arr is not None else Slice([], 0, 0, 0), [ex.havoc(8, "nm") for _ in range(2)])
+    cs1 = cs2 = None
+    if st["n"] == 2:
+        cs1 = new_cs(ex, fid, 1, st["id"] * 10 + 1)
+        cs2 = new_cs(ex, fid, 2, st["id"] * 10 + 2)
+    return Tup([msg, cs1, cs2, None])
+
+
+@exact("(*github.com/flynn/noise.CipherState).Cipher")
+def noise_cipher(ex, g, fid, args):
+    p = args[0]
+    if p is None:
+        raise GoPanic("nil-deref", "Cipher() on nil CipherState")
+    tag = ex.cs_tags.get(id(p.cont), (0, None))[0]
+    for name in ex.funcs:
+        if name.endswith(".vCipherFor"):
+            return CallReq(Closure(name), [tag], lambda r: r)
+    raise Unsupported("harness must define vCipherFor(tag int) noise.Cipher")
+
+
+def functional_havoc(ex, table, key_parts, nbytes, nfresh, kind):
+    """fresh output, equal to an earlier output whenever the inputs are equal"""
+    out = [ex.havoc(8, kind) for _ in range(nfresh)] + [0] * (nbytes - nfresh)
+    for (kp, o) in table:
+        if len(kp) != len(key_parts):
+            continue
+        same = True
+        for a, b in zip(kp, key_parts):
+            if len(a) != len(b):
+                same = False
+                break
+            same = band(same, ex.eq(tuple(a), tuple(b)))
+            if same is False:
+                break
+        if same is False:
+            continue
+        eqo = ex.eq(tuple(o), tuple(out))
+        if same is True:
+            return list(o)
+        ex.add_pc(z3.Implies(same, eqo))
+        ex.model = None
+    table.append((key_parts, out))
+    return out
+
+
+@pattern(r"^go\.brendoncarroll\.net/p2p/p/p2pke\.createPreSig$")
+def p2pke_presig(ex, g, fid, args):
+    purpose, msg = args
+    out = functional_havoc(ex, ex.hash_tables.setdefault("presig", []), [list(purpose), slice_elems(msg)], 64, 2, "ps")
+    return Tup([out, None])
+
+
+@exact("golang.org/x/crypto/blake2b.Sum256")
+def blake2b_sum256(ex, g, fid, args):
+    return functional_havoc(ex, ex.hash_tables.setdefault("blake2b", []), [slice_elems(args[0])], 32, 2, "h")
+
+
+@pattern(r"^go\.brendoncarroll\.net/p2p/p/p2pke\.marshal$")
+def p2pke_marshal(ex, g, fid, args):
+    from .builtins_ import go_append
+    out = args[0]
+    return go_append(ex, out if out.arr is not None else Slice([], 0, 0, 0), [ex.havoc(8, "pb") for _ in range(2)])
+
+
+@pattern(r"^go\.brendoncarroll\.net/p2p/p/p2pke\.unmarshal$")
+def p2pke_unmarshal(ex, g, fid, args):
+    if not fork_bool(ex):
+        return mkerr(ex, gostr("proto: cannot parse"))
+    x = args[1]          # proto.Message interface holding *InitHello / *RespHello / *InitDone
+    p = x.val
+    st = p.cont[p.idx]
+    t = ex.types[ex.types[x.tid]["elem"]]
+    for k, f in enumerate(t["fields"]):
+        if not f["name"][:1].isupper():
+            continue
+        ft = ex.types[f["type"]]
+        if ft["kind"] == "slice":
+            if f["name"] == "TimestampTai64N":
+                n = 12 if fork_bool(ex) else 3
+            else:
+                n = 2
+            st[k] = hbytes(ex, n, "pf")
+        elif ft["kind"] == "int":
+            st[k] = ex.havoc(ft["bits"], "pv")
+    return None
+
+
+def harness_global(ex, suffix):
+    for name in ex.prog.globals:
+        if name.endswith(suffix):
+            return ex.load(Ptr(ex.globals[name], 0))
+    return None
+
+
+@exact("go.brendoncarroll.net/p2p/f/x509.ParsePublicKey")
+def x509_parse(ex, g, fid, args):
+    rt = ex.types[ex.funcs[fid]["sig"]]["results"]
+    zero = ex.zero(rt[0])
+    if not fork_bool(ex):
+        return Tup([zero, mkerr(ex, gostr("asn1: syntax error"))])
+    algo = harness_global(ex, ".vAlgo")
+    if algo is None:
+        raise Unsupported("harness must define var vAlgo oids.OID for the x509.ParsePublicKey model")
+    if not fork_bool(ex):
+        algo = [gostr("unregistered-algorithm")]
+    key = copy_struct(zero)
+    key[0] = algo
+    key[1] = hbytes(ex, 1, "pk")
+    return Tup([key, None])
+
+
+def copy_struct(v):
+    from .exec import copyval
+    return copyval(v)
+
+
+@exact("go.brendoncarroll.net/p2p/f/x509.MarshalPublicKey")
+def x509_marshal(ex, g, fid, args):
+    from .builtins_ import go_append
+    out = args[0]
+    return go_append(ex, out if out.arr is not None else Slice([], 0, 0, 0), [ex.havoc(8, "mk") for _ in range(2)])
+
+
+@pattern(r"^go\.uber\.org/zap\.(Any|String|Error|Int|Uint32|Uint8|Bool|Duration|Time|Stringer|Binary)$")
+def zap_field(ex, g, fid, args):
+    rt = ex.types[ex.funcs[fid]["sig"]]["results"]
+    return ex.zero(rt[0])
+
+
+def install_p2pke(ex):
+    ex.hs = {}
+    ex.cs_tags = {}
+    ex.hash_tables = {}
+
+
+_old_install = Executor.install_env
+
+
+def _install(ex):
+    _old_install(ex)
+    install_p2pke(ex)
+
+
+Executor.install_env = _install
+
+
+# ------------------------------------------------------------------ strings.Builder (uses unsafe): plain byte buffer in field buf
+def _sb_buf(p):
+    st = p.cont[p.idx]
+    return st
+
+
+@exact("(*strings.Builder).Write", "(*strings.Builder).WriteString")
+def sb_write(ex, g, fid, args):
+    from .builtins_ import go_append
+    st = _sb_buf(args[0])
+    data = list(args[1]) if isinstance(args[1], tuple) else slice_elems(args[1])
+    cur = st[1] if isinstance(st[1], Slice) and st[1].arr is not None else Slice([], 0, 0, 0)
+    st[1] = go_append(ex, cur, data)
+    return Tup([len(data), None])
+
+
+@exact("(*strings.Builder).WriteByte")
+def sb_writebyte(ex, g, fid, args):
+    from .builtins_ import go_append
+    st = _sb_buf(args[0])
+    cur = st[1] if isinstance(st[1], Slice) and st[1].arr is not None else Slice([], 0, 0, 0)
+    st[1] = go_append(ex, cur, [args[1]])
+    return None
+
+
+@exact("(*strings.Builder).String")
+def sb_string(ex, g, fid, args):
+    st = _sb_buf(args[0])
+    return tuple(slice_elems(st[1])) if isinstance(st[1], Slice) else ()
+
+
+@exact("(*strings.Builder).Len")
+def sb_len(ex, g, fid, args):
+    st = _sb_buf(args[0])
+    return st[1].len if isinstance(st[1], Slice) else 0
+
+
+@exact("(*strings.Builder).Grow", "(*strings.Builder).Reset")
+def sb_grow(ex, g, fid, args):
+    if fid.endswith("Reset"):
+        _sb_buf(args[0])[1] = Slice(None, 0, 0, 0)
+    return None
